@@ -7,6 +7,7 @@ import (
 	"crypto/rand"
 	"encoding/hex"
 	"fmt"
+	"strings"
 	"testing"
 
 	"github.com/libp2p/go-libp2p/core/crypto"
@@ -376,6 +377,107 @@ func TestVerifC11(t *testing.T) {
 		}
 	}
 	rep.Sample(map[string]interface{}{"kind": "import-catalogue", "cases": len(cases) + 1})
+	c11Faults(rep, seed, X, groups[0])
+}
+
+// c11Faults: one transient storage fault during a derivation. For every keystore/datastore operation a derivation
+// performs, that one operation fails; the call must either fail or return the value every other device derives, and
+// once the fault has gone the same values (and the device key generated before) come back.
+func c11Faults(rep *vrep.Report, seed int64, X crypto.PubKey, G *protocoltypes.Group) {
+	type val struct{ contact, member, device, account, export string }
+	read := func(p *party, what string) (string, error) {
+		switch what {
+		case "contact":
+			g, err := p.st.GetGroupForContact(X)
+			if err != nil {
+				return "", err
+			}
+			return groupSummary(g), nil
+		case "member", "device":
+			md, err := p.st.GetOwnMemberDeviceForGroup(G)
+			if err != nil {
+				return "", err
+			}
+			if what == "member" {
+				return rawPub(md.Member()), nil
+			}
+			return rawPub(md.Device()), nil
+		case "account":
+			g, _, err := p.st.GetGroupForAccount()
+			if err != nil {
+				return "", err
+			}
+			return groupSummary(g), nil
+		default:
+			a, b, err := p.st.ExportAccountKeysForBackup()
+			if err != nil {
+				return "", err
+			}
+			return hex.EncodeToString(a) + "/" + hex.EncodeToString(b), nil
+		}
+	}
+	whats := []string{"contact", "member", "device", "account", "export"}
+	for _, stateName := range []string{"keys-only", "everything-derived-once"} {
+		base := newParty(seed, "A", "1", 2, 2, false)
+		truth := map[string]string{}
+		ref := base.cloneParty()
+		for _, w := range whats {
+			v, err := read(ref, w)
+			must(err)
+			truth[w] = v
+		}
+		if stateName == "everything-derived-once" {
+			base = ref // its device key for G exists now and must never change
+		}
+		for _, w := range whats {
+			n := 0
+			dry := base.cloneParty()
+			dry.ds.fail = func(op, key string) error { n++; return nil }
+			_, err := read(dry, w)
+			must(err)
+			for i := 0; i < n; i++ {
+				P := base.cloneParty()
+				cnt := 0
+				var fop string
+				P.ds.fail = func(op, key string) error {
+					cnt++
+					if cnt-1 == i {
+						fop = op + " " + key
+						return fmt.Errorf("injected: database is locked")
+					}
+					return nil
+				}
+				v, ferr := read(P, w)
+				P.ds.fail = nil
+				rep.AddTransitions(1)
+				cls := "refused"
+				deviceFixed := stateName == "everything-derived-once"
+				if ferr == nil {
+					cls = "same"
+					if (w != "device" || deviceFixed) && v != truth[w] {
+						cls = "other-value"
+					}
+				}
+				after := "same"
+				for _, w2 := range whats {
+					v2, err := read(P, w2)
+					if err != nil {
+						after = "unusable:" + w2
+						break
+					}
+					if (w2 != "device" || deviceFixed) && v2 != truth[w2] {
+						after = "changed:" + w2
+						break
+					}
+				}
+				rep.Eval(fmt.Sprintf("fault/%s/%s/%s/%s/after=%s", stateName, w, strings.SplitN(fop, " ", 2)[0], cls, strings.SplitN(after, ":", 2)[0]))
+				if cls == "other-value" || after != "same" {
+					rep.Violation("C11/derivation-differs-after-storage-fault", fmt.Sprintf("state %s: operation %d of %d of deriving '%s' (%s) fails once: the call returned %s; afterwards: %s (other devices of the account derive something else from now on)", stateName, i, n, w, fop, cls, after), map[string]interface{}{"state": stateName, "derivation": w, "fault_at": i, "op": fop})
+				}
+			}
+		}
+		rep.Sample(map[string]interface{}{"kind": "one storage fault during a derivation", "state": stateName, "derivations": whats})
+	}
 }
 
 func qUsed(hist []string) bool {
